@@ -108,7 +108,7 @@ func TestVerifReplayC14(t *testing.T) {
 	mk := func(tag string) string {
 		return fmt.Sprintf("n=$(wc -l < %s); echo %s >> %s; exit $(cat %s/st.$((n)))", trace, tag, trace, dir)
 	}
-	ctx := NewExecutionContext(nil, "", variables.NewVariables(), []string{mk("up0")}, []string{mk("down0")}, []string{mk("cb0")}, []string{mk("ca0")})
+	ctx := NewExecutionContext(nil, "", variables.NewVariables(), []string{mk("up0"), mk("up1")}, []string{mk("down0")}, []string{mk("cb0")}, []string{mk("ca0")})
 	other := NewExecutionContext(nil, "", variables.NewVariables(), []string{mk("up-other")}, []string{mk("down-other")}, nil, nil)
 	r, _ := NewTaskRunner(WithContexts(map[string]*ExecutionContext{"ctx": ctx, "unused": other}))
 	r.Stdout, r.Stderr = &strings.Builder{}, &strings.Builder{}
@@ -130,6 +130,9 @@ func TestVerifReplayC14(t *testing.T) {
 			if !upDone {
 				upDone = true
 				if f, _ := next("up0"); f {
+					upFail = true
+				}
+				if f, _ := next("up1"); f {
 					upFail = true
 				}
 			}
